@@ -40,15 +40,19 @@ def _run_real(args):
                                       INDENT_type='_INDENT', DEDENT_type='_DEDENT', tab_len=tab_len))
     ind = Ind()
     results = []
-    for raw, abandon in streams:
+    keep = []          # abandoned stream iterators stay referenced (not closed, not collected) — and are released in the middle of a later stream
+    for si_, (raw, abandon) in enumerate(streams):
         toks = [Token(ty, v, i, 1, i + 1) for i, (ty, v) in enumerate(raw)]
         out, err = [], None
         try:
             with guarded(5):
                 gen = ind.process(iter(toks))
+                keep.append(gen)
                 for k, t in enumerate(gen):
                     if abandon is not None and k >= abandon:
                         break
+                    if k == 2 and si_ % 3 == 2:
+                        del keep[:-1]          # earlier, unfinished iterators are released now
                     if t.type == '_INDENT': out.append('I')
                     elif t.type == '_DEDENT': out.append('D')
                     elif t.type == '_NL':
